@@ -43,6 +43,69 @@ DETECT = {
     "C20-b": (["C20"], "DETECTED", "highly compressible payloads no longer round-trip"),
 }
 
+# ---- second round (three changes per property, ids -c -d -e) ----
+DETECT.update({
+    "C01-c": (["C01"], "DETECTED", "undone output loses its frozen height in the cache"),
+    "C01-d": (["C01"], "DETECTED", "stale delete marker after undoing delete and create (same idea as C01-a)"),
+    "C01-e": (["C01"], "DETECTED", "fees undone in a separate first pass: ghost output after the undo"),
+    "C02-c": (["C02"], "DETECTED", "forward loop when undoing a block with an in-block spending chain"),
+    "C02-e": (["C13"], "MISSED by C02", "the award of a height depends on the process's CalcAward cache history: C02's statement (total = sum of coinbase outputs) still holds on the producing node; the divergence between nodes is what C13's history-free award oracle reports (same idea as C13-a). C02 was not changed"),
+    "C03-c": (["C03"], "DETECTED", "delete not stored in the per-block batch view"),
+    "C03-d": (["C03"], "DETECTED", "only the first child of a pending parent gets an edge (same idea as C03-b); map-order dependent, rapid reports the failure as not reproducible"),
+    "C03-e": (["C03"], "DETECTED", "confirmed-table record always re-pointed to the latest block carrying the tx"),
+    "C04-c": (["C04"], "DETECTED", "batch Reset moved after Write (same idea as C04-b / C05-a)"),
+    "C04-d": (["C04"], "DETECTED", "correctTxsBlockid reads the cached body"),
+    "C04-e": (["C04"], "DETECTED", "truncation deletes tx records a surviving block still carries"),
+    "C05-c": (["C05"], "DETECTED", "batch Reset moved after Write (same idea as C05-a)"),
+    "C05-d": (["C05"], "DETECTED", "pool memory mirror changed before the batch commits (same idea as C05-b)"),
+    "C05-e": (["C12"], "MISSED by C05", "a refused submission keeps the lock keys it took (same change as C12-a): only reachable with two submissions in flight; C05 drives one operation at a time, C12 Part B reports it in the quick tier. C05 was not changed"),
+    "C06-c": (["C06"], "MISSED", "needed blocks of several MiB (the early flush triggers above 4 MiB): C06 now appends a ~4.8 MiB block (three bulky transfers) to 1 scenario in 12"),
+    "C06-d": (["C06"], "DETECTED", "pool rebuild on open skips records of transactions already on the trunk"),
+    "C06-e": (["C06"], "DETECTED", "utxo total written outside the block batch"),
+    "C07-c": (["C07"], "DETECTED", "HDInfo moved out of the v3 signing digest"),
+    "C07-d": (["C07"], "MISSED", "needed the forgery 'plain transfer, no contract request at all, victim's input merely DECLARED contract-spent' (forge/contract-claim-norequest)"),
+    "C07-e": (["C07"], "DETECTED", "repeated signer URI counted twice (same idea as C07-b)"),
+    "C08-c": (["C08"], "MISSED", "needed two-site body mutants: body altered AND the carried MerkleTree patched (variants tree-leaves, tree-stale-root); the independent-root oracle was already there"),
+    "C08-d": (["C08"], "DETECTED", "quorum-certificate signature list de-duplicated while hashing the id"),
+    "C08-e": (["C08"], "DETECTED", "proposer/key binding cached by key (same idea as C08-a)"),
+    "C09-c": (["C09"], "DETECTED", "version offset shifts behind a $transient entry (same idea as C09-a)"),
+    "C09-d": (["C09"], "MISSED", "needed the mutant 'somebody else's output put in FRONT of the contract's declared inputs and collected' (foreign-output-declared-contract-spent)"),
+    "C09-e": (["C09"], "MISSED", "needed declared limits at the far negative end of int64 together with a removed fee output (resource-limit-negative-no-fee): with the fee output kept, 'fee - gas' overflows and the mutant is refused anyway"),
+    "C10-c": (["C10"], "MISSED", "needed the backing state to change DURING one execution (a concurrent commit between a Get and a scan): op 'bg' overwrites a live backing key; keys already in the sandbox's read set keep the version seen (decided from the real read set), the replay-over-read-set oracle does the rest"),
+    "C10-d": (["C10"], "DETECTED", "Get after Del of a live key returns the old value"),
+    "C10-e": (["C10"], "DETECTED", "replay of transfers selects one input too many after an exact selection"),
+    "C11-c": (["C11"], "DETECTED", "last URI component always inserted as a new leaf (same idea as C07-b)"),
+    "C11-d": (["C11"], "DETECTED", "key-set validator counts a member whose node merely exists"),
+    "C11-e": (["C11"], "DETECTED", "account rules cached in the manager; a lookup while a rule change is pending re-caches the old rule"),
+    "C12-c": (["C12"], "DETECTED", "read-modify-write keys end with a shared lock (same idea as C12-b)"),
+    "C12-d": (["C12"], "DETECTED", "unlock deferred after the early return (same change as C12-a)"),
+    "C12-e": (["C12"], "DETECTED", "a failed selection unlocks keys another selector holds"),
+    "C13-c": (["C13"], "DETECTED", "reader/overwriter test ignores the bucket"),
+    "C13-d": (["C13"], "DETECTED", "packing skips an oversized transaction (same change as C13-b)"),
+    "C13-e": (["C13"], "DETECTED", "award resumed from a rounded cache entry (same idea as C13-a)"),
+    "C14-c": (["C14"], "DETECTED", "2f+1 quorum instead of n-f for n not of the form 3f+1"),
+    "C14-d": (["C14"], "MISSED", "needed a verifier with HISTORY: the signature cache is keyed without the signed id, so a vote verified earlier for a sibling proposal counts for any id. The direct-path verifiers now first verify every key's (legitimate) vote for the other id (c14WarmUp); the existing 'wrongid' entries carry exactly those signatures"),
+    "C14-e": (["C14"], "MISSED", "needed repeats that state the same public key in another JSON serialisation (entry field pub=1, every other repeat / repeat2 entry)"),
+    "C15-c": (["C15"], "DETECTED", "orphan dropped from the duplicate filter when re-rooted (same idea as C15-a)"),
+    "C15-d": (["C15"], "DETECTED", "markers cleared only when the rollback target has no parent"),
+    "C15-e": (["C15"], "DETECTED", "pacemaker view thrown back by an old certificate"),
+    "C16-c": (["C16"], "MISSED", "needed acceptance across a validator-set change: sub-check validator-change (tdpos: election reported by every snapshot, candidates at tip+1 and as sibling of the tip with next-term timestamps)"),
+    "C16-d": (["C16"], "MISSED", "same sub-check, xpoa: validator set edited in block 3 to another SIZE, node still holding the initial set in memory"),
+    "C16-e": (["C16"], "DETECTED", "PoW retarget window start looked up by trunk height (same change as C16-b)"),
+    "C17-c": (["C17"], "DETECTED", "irreversible height lowered by a lower block (same idea as C17-b)"),
+    "C17-d": (["C17"], "DETECTED", "meta published once after the walk loop (same idea as C17-a)"),
+    "C17-e": (["C17"], "DETECTED", "PlayForMiner updates the irreversible height after the batch is written: lost at restart"),
+    "C18-c": (["C18"], "DETECTED", "snapshot walk stops at a delete marker above the snapshot height"),
+    "C18-d": (["C18"], "DETECTED", "re-packed writer keeps the orphaned block's id"),
+    "C18-e": (["C18"], "DETECTED", "queryTx asks the ledger first (same change as C18-b)"),
+    "C19-c": (["C19"], "DETECTED", "transfer rewrites the sender's lock (same change as C19-a)"),
+    "C19-d": (["C19"], "DETECTED", "passed proposal unlocked twice"),
+    "C19-e": ([], "MISSED", "NOT DETECTED, check not changed: the change makes the tdpos nomination lock the CANDIDATE's tokens instead of the nominator's. Every lock still changes only through Lock / UnLock calls on the account the caller names, supply is conserved and the transfer guard binds the recorded amounts - C19's statement says nothing about WHICH account a nomination has to lock (TDPoS business logic). The check drives the second lock type through a forwarder contract that issues the same Lock / UnLock calls, not through the tdpos nominate / revoke methods"),
+    "C20-c": (["C20"], "DETECTED", "checksum not compared for message versions 1 and 2"),
+    "C20-d": (["C20"], "MISSED", "needed a stricter reading of 'repeat': a message that differs from a handled one only in its sender must still reach a subscriber that filters on that sender (it cannot have got the content before); subscribers without sender filter stay tolerated either way"),
+    "C20-e": (["C20"], "DETECTED", "chain filter ignored when a sender filter is set"),
+})
+
 
 def main():
     for sid in sorted(os.listdir(os.path.join(ROOT, "seeded"))):
